@@ -32,6 +32,7 @@ EXPLANATION = ("a: forward dataflow of the number of frames an activation has op
 FLOORS = {"functions_opening_frames": 1, "begin_sites": 2, "mutators_reachable": 2}
 EXPLANATION += ' d (added): during commit the enclosing frame is only appended to (push/extend/append, or insert under a key-absent guard); retain/remove/truncate/insert-at-front on it lose the value its keys had when it began.'
 EXPLANATION += " d (added): the recorder's skip test is exactly `entry.key == key` (one comparison in the any() closure); a wider test leaves a written key without an undo entry."
+EXPLANATION += ' c (added): a mutator that records undo information does so before every write-lock site, whether or not it is reachable from a query (fact-store half of the property).'
 
 F = "engine::facts::Facts"
 BEGIN, COMMIT, ROLLBACK = F + "::begin_undo_frame", F + "::commit_undo_frame", F + "::rollback_undo_frame"
